@@ -18,6 +18,7 @@ if (cd $sc/repo && patch -p1 -s --no-backup-if-mismatch < $dst/patch.diff); then
 else
   echo "patch does not apply to the current tree" >> $dst/check_with_patch.log; detected="(patch-does-not-apply)"
 fi
+mkdir -p $dst/replays; cp $sc/verif/replays/*.json $dst/replays/ 2>/dev/null; sed -i "s#/verif/replays/#/verif/seeded/$id/replays/#g" $dst/check_with_patch.log
 rm -rf $sc
 python3 - "$dst" "$detected" <<'PY'
 import json, sys, os
